@@ -359,6 +359,19 @@ def gen(tier, rng):
             else:
                 bad = [rng.choice(BAD_HEX + [0x31, 0x66]) for _ in range(len(good))]
             add(op, [bad, [n]], op)
+    # the whole byte alphabet: every byte value 0x00..0xff substituted once into a valid odd numeral (position and
+    # width rotate; both byte orders): a decoder that accepts ANY non-hex byte yields a wrapper from a garbage encoding
+    for b in range(256):
+        n = NS[b % len(NS)]
+        bs = list(from_limbs(limbs(rng, n)).to_bytes(8 * n, 'big'))
+        bs[0] |= 1; bs[-1] |= 1
+        good = hexchars(rng, bs)
+        for order in ('be', 'le'):
+            bad = good[:]
+            pos = [0, 1, len(bad) - 2, len(bad) - 1, (7 * b) % len(bad)][b % 5]
+            bad[pos] = b
+            op = 'w.odd.from_%s_hex' % order
+            add(op, [bad, [n]], op)
     for i, m in enumerate(MODULI):
         chars = [ord(c) for c in m]
         for r in ('.impl_modulus', '.from_const_params'):
